@@ -54,24 +54,26 @@ func buildPools(f *fe.Fixture, p *drv.FakeProxy, mode string, rng *rand.Rand) (*
 	ctx := context.Background()
 	for i := 0; i < 48; i++ {
 		mk := func(n int) drv.Blob { return drv.MkBlob(drv.GenData(rng, n, i%3)) }
+		// many digests share a size (blobs of equal size are common: empty-ish files, fixed-size records)
+		sz := func() int { return []int{64, 64, 200, 200, 1000, 10 + rng.Intn(3000)}[rng.Intn(6)] }
 		// local
-		b := mk(10 + rng.Intn(3000))
+		b := mk(sz())
 		if err := f.Cache.Put(ctx, cache.CAS, b.Hash, int64(len(b.Data)), bytes.NewReader(b.Data)); err != nil {
 			return nil, err
 		}
 		pools.byClass["local"] = append(pools.byClass["local"], &pb.Digest{Hash: b.Hash, SizeBytes: int64(len(b.Data))})
 		// held locally under another size
-		b = mk(10 + rng.Intn(3000))
+		b = mk(sz())
 		if err := f.Cache.Put(ctx, cache.CAS, b.Hash, int64(len(b.Data)), bytes.NewReader(b.Data)); err != nil {
 			return nil, err
 		}
 		pools.byClass["localOtherSize"] = append(pools.byClass["localOtherSize"], &pb.Digest{Hash: b.Hash, SizeBytes: int64(len(b.Data)) + 1 + int64(rng.Intn(5))})
 		// absent everywhere
-		b = mk(10 + rng.Intn(3000))
+		b = mk(sz())
 		pools.byClass["absent"] = append(pools.byClass["absent"], &pb.Digest{Hash: b.Hash, SizeBytes: int64(len(b.Data))})
 		pools.byClass["empty"] = append(pools.byClass["empty"], &pb.Digest{Hash: "e3b0c44298fc1c149afbf4c8996fb92427ae41e4649b934ca495991b7852b855", SizeBytes: 0})
 		// only in the backend, within / above max_proxy_blob_size
-		b = mk(10 + rng.Intn(3000))
+		b = mk(sz())
 		pools.byClass["backendOnly"] = append(pools.byClass["backendOnly"], &pb.Digest{Hash: b.Hash, SizeBytes: int64(len(b.Data))})
 		big := mk(proxyLimit + 1 + rng.Intn(2000))
 		pools.byClass["backendOversize"] = append(pools.byClass["backendOversize"], &pb.Digest{Hash: big.Hash, SizeBytes: int64(len(big.Data))})
